@@ -66,6 +66,16 @@ pub fn check_list(ctx: &mut Ctx, list: &[REntry], codec: u8, with_async: bool, r
             mat(list, codec),
         ),
     }
+    // a parse that fails right before (cut copy of the own output): nothing it leaves behind may show in the next parse
+    if out.len() > 3 && rng.chance(1, 3) {
+        let cut = out.len() - 1 - (out.len() / 5).min(3);
+        let _ = guard(|| Directory::from_bytes(&out[..cut], comp).map(|d| d.len()));
+        let mut bad = out.clone();
+        let at = bad.len() / 2;
+        bad[at] ^= 0x33;
+        let _ = guard(|| Directory::from_bytes(&bad, comp).map(|d| d.len()));
+        ctx.count("parses_preceded_by_failed_parses");
+    }
     // parse own output
     match guard(|| Directory::from_bytes(&out, comp)) {
         Ok(Ok(d)) => {
